@@ -169,6 +169,11 @@ ASSUMPTIONS = [
     'level, RuntimeTask.task_counter) is shared; oracles do not depend on it',
     'white-box idle-state probes read private attributes named in the '
     'property anchors',
+    'library gates get a stable hash (import hook in dst/__init__.py) and '
+    './check pins PYTHONHASHSEED=0: gate-set iteration order is one of the '
+    'orders a real run can produce, not all of them',
+    'compile() runs (C01-C03) execute in a fresh fork each; runs longer '
+    'than the per-run wall timeout are inconclusive, never a pass',
 ]
 
 
